@@ -181,7 +181,20 @@ class ScriptBadStrExc(Exception):
     __repr__ = __str__
 
 
-EXC_FAMILIES = ("plain", "runtime", "os", "frozen", "empty", "group", "type", "timeout", "poolcancel", "badstr")
+class ScriptEmptyTimeoutExc(TimeoutError):
+    """The operation's own timeout error that is also a sized, empty (falsy) object."""
+
+    def __init__(self, klass: str, idx: int, ra=None):
+        super().__init__(f"{klass}@{idx}")
+        self.rv_klass = klass
+        self.idx = idx
+        self.retry_after = ra
+
+    def __len__(self):
+        return 0
+
+
+EXC_FAMILIES = ("plain", "runtime", "os", "frozen", "empty", "group", "type", "timeout", "poolcancel", "badstr", "emptytimeout")
 
 
 def mk_script_exc(family, klass, idx, ra=None):
@@ -201,6 +214,8 @@ def mk_script_exc(family, klass, idx, ra=None):
         return ScriptPoolCancelled(klass, idx, ra)
     if family == "badstr":
         return ScriptBadStrExc(klass, idx, ra)
+    if family == "emptytimeout":
+        return ScriptEmptyTimeoutExc(klass, idx, ra)
     if family == "group":
         # what a TaskGroup / nursery with one failing child raises
         x = ExceptionGroup(f"{klass}@{idx}", [ScriptExc(klass, idx, ra)])
@@ -238,6 +253,13 @@ class BadReprError(Exception):
 
     def __repr__(self):
         raise RuntimeError("no repr for you")
+
+
+class EmptyHookError(Exception):
+    """A sized error raised empty: a falsy exception object (from a hook)."""
+
+    def __len__(self):
+        return 0
 
 
 class JobCancelled(asyncio.CancelledError, Exception):
@@ -287,6 +309,8 @@ def make_exc(name: str):
         return NonStrError("injected")
     if name == "BadReprError":
         return BadReprError("injected")
+    if name == "EmptyHookError":
+        return EmptyHookError("injected")
     if name == "StopIteration":
         return StopIteration("injected")
     if name == "KeyError":
@@ -388,8 +412,8 @@ class SpyBudget(Budget):
         super().__init__(**kw)
         self._rv_sink = sink
 
-    def consume(self, cost: int = 1) -> bool:
-        r = super().consume(cost)
+    def consume(self, cost: int = 1, *a, **kw) -> bool:
+        r = super().consume(cost, *a, **kw)  # (whatever further arguments the engine may pass are handed through)
         w = env.current()
         self._rv_sink().append(("budget", cost, r, w.now() if w else None))
         return r
@@ -629,6 +653,9 @@ class Harness:
                 ("strategy", name, attempt, klassname, prev, remaining, cause, ra, v, cls_ok, h.now())
             )
             h.cb_fault("strategy")
+            sd = rec.env.get("strat_dur")
+            if sd:
+                h.world.t += sd[(h.n.get("cb:strategy", 1) - 1) % len(sd)]  # a strategy that takes time to answer
             return v
 
         if name in self.cfg.get("legacy", ()):
@@ -1047,8 +1074,8 @@ class Harness:
 
         self.has_retry = not cfg.get("no_retry")
         kw = dict(
-            classifier=self.classifier,
-            result_classifier=self.result_classifier if cfg.get("result_classifier", True) else None,
+            classifier=self.shape(self.classifier),
+            result_classifier=self.shape(self.result_classifier) if cfg.get("result_classifier", True) else None,
             strategy=self.mk_strategy("default") if cfg.get("default_strategy", True) else None,
             strategies={EC[k]: self.mk_strategy(k) for k in cfg.get("class_strategies", ())},
             budget=self.budget,
